@@ -697,6 +697,12 @@ def _conc_scenarios(rng, n, gc):
                 th.append(("T1", rng.choice(("get %s" % K, "has %s" % K, "flush", "get %s" % others[0]))))
             names = [t[0] for t in th]
             sched = [rng.choice(names) for _ in range(rng.randint(6, 40))]
+            if th[0][1].startswith("put") and rng.random() < 0.35:
+                # the writer's compare-and-swap fails (the cycle moved the record first) and it starts over - still under the key lock:
+                # a second writer of K that arrives during the second attempt has to wait
+                th = th[:2] + [("T1", rng.choice(("remove %s" % K, "put %s 3435" % K)))]
+                names = [t[0] for t in th]
+                sched = ["T0"] * 3 + ["G1"] * 20 + ["T0"] * rng.choice((1, 2, 2, 3)) + ["T1"] * 8 + ["T0"] * 8
             # without a Flush thread the cycle's hand-over is exactly the setup's entries and its only relocation candidate is K's first record:
             # such a run is replayed on the location-protocol model (ConcGC.v); everybody finishes inside the schedule
             gcm = not any(t[1] == "flush" for t in th) and rng.random() < 0.8
